@@ -26,7 +26,21 @@ def run(ctx):
     if st["joined"] == 0:
         raise vlib.ToolError("no session joined: vacuous")
     recs = vlib.read_ndjson(ctx.path("trace.ndjson"))
-    rejected, matched, tstates = ctx.validate_runs("Session_Trace", recs)
+    # pass 1: the lifecycle as it should be (strict).  Sessions it rejects only because of the
+    # named deviation EarlyAck are reported under one specific key; pass 2 re-validates everything
+    # with the deviation allowed, so the rest of those sessions is still checked.
+    strict, _, _ = ctx.validate_runs("Session_Trace", recs, max_rejects=8)
+    early = 0
+    for rj in strict:
+        bad = rj["bad"] or {}
+        prior_acks = sum(1 for x in rj["run"][:rj["bad_index"]] if x.get("ev") == "c" and x.get("what") == "cfgack")
+        if bad.get("ev") == "b" and bad.get("what") == "cfgack" and prior_acks >= 1:
+            early += 1
+    if early:
+        ctx.finding("reconfiguration:backend-finish-acknowledged-before-client-acknowledged",
+                    "on a server switch (1.20.2+) the proxy acknowledged the new backend's finish-configuration "
+                    "before the client did, in at least %d session(s)" % early, strict[0])
+    rejected, matched, tstates = ctx.validate_runs("Session_Trace", recs, cfg="Session_Trace_dev.cfg")
     for rj in rejected:
         bad = rj["bad"] or {}
         ctx.finding("lifecycle:%s:%s" % (bad.get("ev"), bad.get("what")),
@@ -35,6 +49,8 @@ def run(ctx):
         "samples": st["samples"],
         "evaluations": st["sessions"],
         "distinct_nontrivial": st["joined"],
+        "switches": st.get("switched", 0),
+        "sessions_with_early_backend_ack": early,
         "rule": "one evaluation = one player session (client connection + the backend connections opened for it); "
                 "non-trivial = sessions that reached play through the refuse/kick/ok try list",
         "trace_events_validated": matched,
